@@ -304,8 +304,8 @@ class HistConc(HistPlan):
     """hist + thin histories, plus schedules of one conc scenario."""
     scen = "uniqpoll"
     with_thin = False
-    quick = dict(dbg=1200, rel=600, nostd=300, ops=220)
-    thorough = dict(dbg=120000, rel=60000, off=20000, nostd=20000, ops=300)
+    quick = dict(dbg=1200, rel=600, nostd=300, ops=220, miri=8, miri_ops=90)
+    thorough = dict(dbg=120000, rel=60000, off=20000, nostd=20000, ops=300, miri=96, miri_ops=140)
     san_props = ()
     crash_props = ()
     per_cycle = 8  # executions that cover every API variant once
